@@ -413,7 +413,7 @@ def run(prog: Program) -> Results:
         # the depth (any mix of the two spellings, locals looked through)
         if verdict is None:
             from sa.util import Aliases
-            al2 = Aliases(sp.node, calls=("len",))
+            al2 = Aliases(sp.node, calls=("len", "lstrip"))
             strip = f"{src}.lstrip('@')"
             dd = defs_of(d_name) if d_name else []
             dv = dd[0].value if len(dd) == 1 and isinstance(dd[0], ast.Assign) else d_expr
